@@ -38,6 +38,18 @@ def p_num():
     print(42)
 def p_space():
     print("  padded  ")
+def p_blank_end():
+    print("TOTAL")
+    print()
+def p_noeol():
+    print("TOTAL", end="")
+def p_newlines():
+    print()
+    print()
+def p_blank_mid():
+    print("a")
+    print()
+    print("b")
 """
 
 VALUES = [0, 1, -1, 2, True, False, 1.0, 1.0005, 1.002, 0.9995, 'a', 'A', 'abc', 'a!', 'Hello, World', 'hello world',
@@ -53,8 +65,10 @@ TYPES = [int, str, float, list, tuple, dict, bool, type(None)]
 REGEXES = ['a+', '^h', r'\d', 'World$', '[', 'x|y']
 TEXTS = ['caat', 'hello', 'h3llo', 'Hello World', '', 'xyz']
 PRINTERS = {'p_hello': "Hello, World!\n", 'p_two': "line one\nLine Two\n", 'p_none': "", 'p_num': "42\n",
-            'p_space': "  padded  \n"}
-OUT_TEXTS = ["Hello, World!", "hello world", "line one\nLine Two", "42", "World", "zzz", "", "  padded"]
+            'p_space': "  padded  \n", 'p_blank_end': "TOTAL\n\n", 'p_noeol': "TOTAL", 'p_newlines': "\n\n",
+            'p_blank_mid': "a\n\nb\n"}
+OUT_TEXTS = ["Hello, World!", "hello world", "line one\nLine Two", "42", "World", "zzz", "", "  padded", "TOTAL", "TOTAL\n",
+             "\n", "a\nb", "a\n\nb"]
 
 
 def _setup():
@@ -439,13 +453,16 @@ def body_output(ctx):
     tx = OUT_TEXTS[ctx.choose(len(OUT_TEXTS), 'text')]
     exact = bool(ctx.choose(2, 'exact_strings'))
     use_err = ctx.choose(6, 'execution-is-error') == 5
+    # where the assertion is made: on a result obtained earlier (other calls followed), or inside an instructor's
+    # CommandBlock right after the call / after one more call in the same block
+    where = ('earlier result', 'block: right after the call', 'block: after a later call')[ctx.choose(3, 'asserted-where')]
     _trim()
     printed = PRINTERS[pn]
     body = printed[:-1] if printed.endswith("\n") else printed
     case = {'assertion': name, 'printer': pn, 'printed': printed, 'text': tx, 'exact_strings': exact, 'error_execution': use_err}
-    ctx.observe(repr((name, pn, tx, exact, use_err)))
+    ctx.observe(repr((name, pn, tx, exact, use_err, where)))
     ctx.set_sample(case)
-    ctx.mark_nontrivial(repr((name, pn, tx, exact, use_err)))
+    ctx.mark_nontrivial(repr((name, pn, tx, exact, use_err, where)))
     # reference: only clear-cut cases
     if 'contains' in name:
         if exact:
@@ -458,16 +475,29 @@ def body_output(ctx):
             rel = None
     else:
         if exact:
-            rel = True if body == tx else (False if body.strip() != tx.strip() else None)
+            # exactly the printed text, the final newline that print() adds being optional; anything else -- also a
+            # difference in blank lines or spaces only -- is not equal under exact_strings
+            rel = True if printed in (tx, tx + "\n") else (False if printed.rstrip("\n") != tx.rstrip("\n") or
+                                                           len(printed) - len(printed.rstrip("\n")) >
+                                                           len(tx) - len(tx.rstrip("\n")) + 1 else None)
         elif _norm(body) == _norm(tx):
             rel = True if (body.strip() or not tx.strip()) else None
         elif sorted(c for c in body.lower() if c.isalnum()) != sorted(c for c in tx.lower() if c.isalnum()):
             rel = False
         else:
             rel = None
-    ex = ERR if use_err else PRINT_P[pn]
-    ctx.step(name)
-    fb, exc = _call(name, ex, tx, exact_strings=exact)
+    case['asserted'] = where
+    if where == 'earlier result' or use_err:
+        ex = ERR if use_err else PRINT_P[pn]
+        ctx.step(name)
+        fb, exc = _call(name, ex, tx, exact_strings=exact)
+    else:
+        with sb_cmds.CommandBlock():
+            ex = sb_cmds.call(pn)
+            if where.endswith('later call'):
+                sb_cmds.call('p_num' if pn != 'p_num' else 'p_hello')
+            ctx.step(name)
+            fb, exc = _call(name, ex, tx, exact_strings=exact)
     if use_err:
         _judge(ctx, name, fb, exc, False, case, False, True)
         return
